@@ -635,7 +635,7 @@ func init() {
 		Assume:    []string{"association objects handed out by Catalog.AsArray/iterators are live handles by design; constructors must not keep the caller's association objects (checked)"},
 		Budget:    func(string) time.Duration { return 2 * time.Minute },
 		Units: func(tier string) []engine.Unit {
-			us := []engine.Unit{{Name: "constructors", Run: finish(constructorAliasing)}, {Name: "results", Run: finish(resultAliasing)}, {Name: "self-operands", Run: finish(selfOperands)}, {Name: "large-views", Run: largeViews}}
+			us := []engine.Unit{{Name: "constructors", Run: finish(constructorAliasing)}, {Name: "results", Run: finish(resultAliasing)}, {Name: "self-operands", Run: finish(selfOperands)}, {Name: "large-views", Run: largeViews}, {Name: "class-functions", Run: classFunctions}}
 			// the sequence of output queues returned by Queue.Fork/Split, modified by the caller while the helper goroutine runs (every schedule)
 			return append(us, c06.ReturnedSequenceUnits(tier)...)
 		},
